@@ -211,7 +211,16 @@ def r07c(P, R):
         else:
             R.undecided("R07-c", "fill:" + key, "AST field `%s` is built from %s, of which %s enclose(s) the assigned part %s without its own text being "
                         "read: same part at a coarser granularity, not decided" % (key, sorted(m), coarse or unjust, sorted(w)))
-    # struct-update syntax in builders: a `..base` fills fields this rule does not see
+    # order: the lists of the AST are in the order of the text — on the way from the parsed pairs to a field no value may pass through a
+    # sort (other than by position), a reversal, a de-duplication or a hashed / ordered-by-key collection
+    moved = 0
+    for key, rec in sorted(got.items()):
+        for op, loc in sorted(rec.get("ops", {}).items()):
+            moved += 1
+            R.violated("R07-c", "order:" + key, "`%s` passes through `%s` on its way from the parsed pairs: its elements are no longer (all) in the order "
+                       "in which the text lists them, so the document the parser yields is not the one the text denotes" % (key, op), loc=loc)
+    if not moved:
+        R.holds("R07-c", "order", "no AST field passes through a re-ordering or de-duplicating operation")
     for p, f in ai.fns.items():
         for n in f.walk():
             if n.get("k") == "Struct" and "rest" not in n and ("base" in n or n.get("default_tail")) \
@@ -240,6 +249,21 @@ def r07d(P, R):
     ends = {x[1] for x in flat_choice(last) if x[0] == "id"}
     R.check("R07-d", "comment-terminator", {"NEWLINE", "EOI"} <= ends, "a comment ends at a line terminator or at end of input",
             "COMMENT must be followed by %s: a comment on the last line without trailing newline is a syntax error" % sorted(ends))
+    # CommentChar :: SourceCharacter but not LineTerminator (LF, CR LF, CR): the loop that consumes the body of a comment must stop at
+    # a line feed and at a carriage return
+    loops = [x for x in _walk(c) if x[0] in ("star", "plus") and "\x00" in g.first(x[1])[0]]
+    if not loops:
+        R.undecided("R07-d", "comment-body", "kind=anchor-missing: COMMENT has no repetition that consumes arbitrary characters")
+    for x in loops[:1]:
+        sure, maybe = g.lead_excluded(x[1])
+        miss = [ch for ch in ("\n", "\r") if ch not in sure]
+        if not miss:
+            R.holds("R07-d", "comment-body", "a comment stops at LF and at CR")
+        elif all(ch in maybe for ch in miss):
+            R.undecided("R07-d", "comment-body", "whether a comment stops at %s is not decided" % _chars(miss))
+        else:
+            R.violated("R07-d", "comment-body", "the body of a comment does not stop at %s, which the spec defines as a line terminator: a comment on a "
+                       "line that ends in it swallows the following tokens up to the next line feed" % _chars([ch for ch in miss if ch not in maybe]))
     # numbers
     ep = body("ExponentPart")
     first = ep[1][0]
@@ -250,10 +274,21 @@ def r07d(P, R):
     ip = body("IntegerPart")
     ok = ip[0] == "seq" and ip[1][0] == ("opt", ("str", "-")) and ip[1][1][0] == "choice" and ip[1][1][1][0] == ("str", "0")
     R.check("R07-d", "integer-part", ok, "-? (0 | NonZeroDigit Digit*)", "IntegerPart is %r" % (ip,))
+    # every way a number token can end is closed by a negative look-ahead over `.` and the characters that start a name — decided on what
+    # the rule accepts (per path, look-aheads expanded through sub-rules), not on how the alternatives are factored
+    name_start = g._sure_start(("id", "NameStart"))[0] if "NameStart" in rules else set("_")
+    need = {"."} | name_start
     for n in ("IntValue", "FloatValue"):
-        negs = [x for x in _walk(body(n)) if x[0] == "neg"]
-        ok = bool(negs) and all({y[1] for y in flat_choice(x[1])} >= {".", "NameStart"} for x in negs)
-        R.check("R07-d", "number-lookahead:" + n, ok, "not followed by `.` or NameStart", "%s lacks the `!(. | NameStart)` lookahead" % n)
+        ends = g.trailing_excluded(body(n))
+        open_ = sorted({c for s_, m_, z in ends for c in need - s_ - m_})
+        unsure = sorted({c for s_, m_, z in ends for c in (need - s_) & m_})
+        if open_:
+            R.violated("R07-d", "number-lookahead:" + n, "%s can end directly before %s: `1.x`/`1abc` style input lexes as a number followed by another "
+                       "token instead of being rejected" % (n, _chars(open_)))
+        elif unsure:
+            R.undecided("R07-d", "number-lookahead:" + n, "whether %s may be followed by %s is not decided (multi-character look-ahead)" % (n, _chars(unsure)))
+        else:
+            R.holds("R07-d", "number-lookahead:" + n, "on every path not followed by `.` or a name start")
     # ordered choice: no alternative is shadowed by an earlier one that is its prefix (PEG commits to the first success)
     dead = g.dead_alternatives()
     R.floor("R07-d", "ordered choices analysed", g.choice_count(), 40)
@@ -273,8 +308,14 @@ def r07d(P, R):
     nc = {x[1] for x in flat_choice(body("NameContinue"))}
     R.check("R07-d", "name", ns == {"ASCII_ALPHA", "_"} and nc == {"ASCII_ALPHANUMERIC", "_"}, "Name: [_A-Za-z][_0-9A-Za-z]*", "NameStart %s / NameContinue %s" % (ns, nc))
     # strings
-    R.check("R07-d", "string-forbidden-raw", g.forbids_raw("NormalStringCharacter") == {'"', "\\", "<NEWLINE>"}, "raw string characters exclude \", \\ and line terminators",
-            "NormalStringCharacter excludes %s" % sorted(g.forbids_raw("NormalStringCharacter")))
+    sure, maybe = g.lead_excluded(body("NormalStringCharacter"))
+    want_x = {'"', "\\", "\n", "\r"}
+    if sure == want_x and not maybe:
+        R.holds("R07-d", "string-forbidden-raw", "raw string characters exclude \", \\ and line terminators")
+    elif (want_x - sure - maybe) or (sure - want_x):
+        R.violated("R07-d", "string-forbidden-raw", "NormalStringCharacter excludes %s; the spec excludes exactly \", \\, LF and CR" % _chars(sorted(sure)))
+    else:
+        R.undecided("R07-d", "string-forbidden-raw", "NormalStringCharacter surely excludes %s, possibly %s: not decided" % (_chars(sorted(sure)), _chars(sorted(maybe))))
     R.check("R07-d", "escaped-characters", g.text_lang("EscapedCharacter") == {'\\"', "\\\\", "\\/", "\\b", "\\f", "\\n", "\\r", "\\t"},
             "EscapedCharacter: one of \" \\ / b f n r t", "EscapedCharacter texts are %s" % sorted(g.text_lang("EscapedCharacter") or []))
     u4 = body("EscapedUnicode4")
@@ -401,6 +442,18 @@ def _data_path_calls(pv, e):
 def rule_of_node(n):
     d = norm(n.get("def", "")) if isinstance(n, dict) else ""
     return d[len(RULE):] if d.startswith(RULE) else None
+
+
+def _chars(cs):
+    cs = list(cs)
+    letters = [c for c in cs if c.isalpha()]
+    rest = [c for c in cs if not c.isalpha()]
+    out = [repr(c) for c in rest]
+    if len(letters) > 6:
+        out.append("letters")
+    else:
+        out.extend(repr(c) for c in letters)
+    return ", ".join(out)
 
 
 def _walk(e):
